@@ -31,7 +31,7 @@ ASSUMPTIONS = [
     "combined return: must contain the union of returned flags and may additionally contain SUCCESS when some handler returned non-zero",
     "in population 'prod' event kinds whose DEFAULT handlers are registered for every language are not notified with probe data (they would run lian code on it); they are covered by population 'bare' and by the in-vivo monitor of C15",
 ]
-PROBES = ["invivo_notifications", "invivo_handlers_invoked", "invivo_multi_handler_notifications", "unprocessed_set_out", "lang_filtered", "any_lang_match", "blocked", "data_chained", "unprocessed_kept_data", "unknown_event", "registered_by_declared_name", "registered_for_unsupported_declared_kind", "raised_by_declared_name",
+PROBES = ["invivo_notifications", "invivo_handlers_invoked", "invivo_multi_handler_notifications", "unprocessed_set_out", "lang_filtered", "any_lang_match", "blocked", "data_chained", "unprocessed_kept_data", "unknown_event", "handler_bound_method", "handler_partial", "handler_callable_object", "rich_data", "global_debug_flag", "registered_by_declared_name", "registered_for_unsupported_declared_kind", "raised_by_declared_name",
           "flags_multi", "str_lang", "set_lang", "substring_lang", "register_list", "plugin_loaded", "prod_default_table",
           "no_handler_matched", "listed_handlers", "debug_mode", "reentrant_notify", "registered_during_dispatch", "eventdata_reused", "same_handler_twice", "shared_lang_list"]
 # the same check again, smaller, in interpreters started with assertions stripped (python -O / PYTHONOPTIMIZE=1)
@@ -114,6 +114,11 @@ def gen_knobs(rng, tier):
         "debug": rng.random() < 0.2,          # production --debug: the manager prints what it dispatches
         "p_list": rng.choice([0.0, 0.0, 0.2]),
         # events addressed by their DECLARED NAME (EVENT_KIND.<name>), supported by the manager or not; and a scripted sweep
+        # handlers that are not plain functions (bound methods, functools.partial objects, objects with __call__), the data
+        # they leave behind being dicts / lists as well as strings, and --debug with the global debug flag on
+        "exotic_handlers": rng.random() < 0.3,
+        "rich_data": rng.random() < 0.3,
+        "debug_flag": rng.random() < 0.5,
         "named_events": rng.random() < 0.12,
         "name_sweep": rng.random() < 0.012,
     }
@@ -287,6 +292,11 @@ def execute_invivo(trace):
 
 
 def execute(trace):
+    try:
+        from lian.config import config as _cfg0
+        _cfg0.DEBUG_FLAG = False
+    except Exception:  # noqa
+        pass
     k = trace["knobs"]
     pop = k["population"]
     if pop == "invivo":
@@ -308,9 +318,38 @@ def execute(trace):
     nested_log = []      # (nested event, nested lang, [(hid, in_data)], return) performed from inside a handler
     reent = {"nested": None, "late_reg": None, "em": None, "resolve": None}
 
+    rich = bool(k.get("rich_data"))
+
+    def out_value(n, h):
+        """what handler h leaves in out_data during notification n"""
+        if not rich:
+            return f"out{n}.{h}"
+        kind = (n + h) % 5
+        if kind == 0:
+            return {"kind": "result", "n": n, "h": h}
+        if kind == 1:
+            return {n: "by_number", (h, n): "by_tuple"}          # a dict whose keys are not strings
+        if kind == 2:
+            return [n, h, f"out{n}.{h}"]
+        if kind == 3:
+            return SimpleNamespace(n=n, h=h)
+        return f"out{n}.{h}"
+
+    def J(x):
+        """JSON-able description of a data value (type and content)"""
+        if isinstance(x, str) or x is None:
+            return x
+        if isinstance(x, dict):
+            return {"__dict__": sorted([repr(k_), repr(v_)] for k_, v_ in x.items())}
+        if isinstance(x, SimpleNamespace):
+            return {"__namespace__": sorted([k_, repr(v_)] for k_, v_ in vars(x).items())}
+        if isinstance(x, (list, tuple)):
+            return {"__" + type(x).__name__ + "__": [repr(v_) for v_ in x]}
+        return {"__other__": repr(x)}
+
     def make_handler(h):
         def handler(data):
-            invoked.append((h, data.in_data))
+            invoked.append((h, J(data.in_data)))
             nst, lrg = reent["nested"], reent["late_reg"]
             if nst is not None and nst["h"] == h and nst.get("_ev") is not None and not nst.get("_done"):
                 nst["_done"] = True
@@ -327,9 +366,28 @@ def execute(trace):
                 else:
                     reent["em"].register(lrg["_ev"], handlers[lrg["new_h"]], la)
             if script["sets_out"].get(str(h)):
-                data.out_data = f"out{script['n']}.{h}"
+                data.out_data = out_value(script["n"], h)
             return script["returns"].get(str(h), 0)
         handler.__name__ = f"probe_{h}"
+        if not k.get("exotic_handlers"):
+            return handler
+        shape = (h + int(k.get("n_notify", 0))) % 4
+        if shape == 1:
+            class Owner:
+                def run(self, data):
+                    return handler(data)
+            hit("handler_bound_method")
+            return Owner().run
+        if shape == 2:
+            import functools
+            hit("handler_partial")
+            return functools.partial(lambda tag, data: handler(data), f"probe_{h}")
+        if shape == 3:
+            class Callable_:
+                def __call__(self, data):
+                    return handler(data)
+            hit("handler_callable_object")
+            return Callable_()
         return handler
 
     all_h = set()
@@ -422,8 +480,15 @@ def execute(trace):
     name_model = {}     # declared name -> handler ids registered under that name
     n_notify = 0
     last_data = [None]
+    from lian.config import config as _cfg
+    _cfg.DEBUG_FLAG = False
     if k.get("debug"):
         hit("debug_mode")
+        if k.get("debug_flag"):
+            _cfg.DEBUG_FLAG = True        # what `-d` without `-q` switches on: util.debug() really formats and prints
+            hit("global_debug_flag")
+    if rich:
+        hit("rich_data")
 
     for step, op in enumerate(ops):
         if violation:
@@ -524,7 +589,7 @@ def execute(trace):
             alt_seq.append((h, b_in))
             r = op["returns"].get(str(h), 0)
             if op["sets_out"].get(str(h)):
-                cur_out = f"out{n_notify - 1}.{h}"
+                cur_out = J(out_value(n_notify - 1, h))
                 if r != 0:
                     b_out = cur_out
                 else:
@@ -602,6 +667,7 @@ def execute(trace):
             model.setdefault(lr["_ev"], []).append((lr["new_h"], _model_langs(lr["langs"])))
             if lr["event"] in name_of:
                 name_model.setdefault(name_of[lr["event"]], []).append(lr["new_h"])
+    _cfg.DEBUG_FLAG = False
     return {"violation": violation, "probes": probes, "states": states, "trans": trans,
             "steps": len(ops), "log": digest_hex([log, violation])}
 
